@@ -42,7 +42,7 @@ def provHandle (st : ProvSt) (cmd : String) (a : Args) : ProvSt × String :=
           natList? (a.get "prods"), slots? (a.get "pprods"), natList? (a.get "after"), optNat? (a.get "parent") with
     | some id, some src, some cnt, some deps, some pdeps, some prods, some pprods, some after, some parent =>
       let t0 : PTask := { id, src, cnt, deps, pdeps, prods, pprods, after, gen := a.get "gen" == "1", fails := a.get "fails" == "1" }
-      let t : PTask := { t0 with uncollectable := a.get "unc" == "1" }
+      let t : PTask := { t0 with uncollectable := a.get "unc" == "1", failsLate := a.get "late" == "1" }
       match parent with
       | none => ({ st with tasks := st.tasks.filter (·.id != id) ++ [t] }, "ok")
       | some g => ({ st with kids := st.kids.filter (·.2.id != id) ++ [(g, t)] }, "ok")
